@@ -128,7 +128,7 @@ def o3_no_unsaved_loss(steps, cfg, history, include_failed=False):
     for st in steps:
         c = st['cmd']
         pre, post = st['pre'], st['post']
-        if pre is None or post is None or c['op'] in ('write', 'delete', 'remove') or is_force(c) or (st['rc'] not in (0, 1) and not include_failed):
+        if pre is None or post is None or c['op'] in ('write', 'delete', 'remove', 'emptydir') or is_force(c) or (st['rc'] not in (0, 1) and not include_failed):
             continue
         for p, k in pre.ws.items():
             b = read_through(pre, p)
@@ -246,6 +246,14 @@ def o6_methods(steps, cfg, history):
             if kind in ('symlink', 'hardlink') and r['cur'] and addr != rec_addr(r, p):
                 # a link to an older version is legitimate only if no command acted on p since; judged on acting commands below
                 pass
+        # a link never leads to an object that anybody may write to (mode & 0222 == 0): the object is shared by every path and
+        # version with that content (seeded change C17-4: only the owner's write bit was cleared)
+        for p, r in post.recs.items():
+            kind, addr = entry_kind(post, p)
+            o = post.cache.get(addr) if kind in ('symlink', 'hardlink') and addr else None
+            if o and o.get('mode') is not None and o['mode'] & 0o222:
+                out.append((f"step {st['i']} {show_cmd(c)}: {p} is a {kind} to the object {addr} with mode {oct(o['mode'] & 0o777)}: the object can be changed through the link",
+                            {'kind': 'link-to-writable-object'}))
         if c['op'] == 'recheck' and c.get('method'):
             for t in c['targets']:
                 # an unmodified (or absent) entry - or, with --force, also a locally modified one whose committed version is
@@ -349,8 +357,16 @@ class Committed:
             # the premise "track / carry-in has committed the file": afterwards the path is recorded and an object
             # exists under the recorded digest (an unchanged file whose object was explicitly removed, or that was only
             # recorded with --no-commit, is skipped by carry-in: nothing was committed, nothing is claimed)
+            # A command that exits 0 and leaves a NEW version on record for the path (a path tracked for the first time, or a
+            # current digest other than before) has committed that version, whether or not it put the object where it
+            # belongs: "track said ok, the file is on record" is all a user sees.
             r = post.recs.get(t)
-            return bool(r and r['cur'] and rec_addr(r, t) in post.cache)
+            if not (r and r['cur']):
+                return False
+            if rec_addr(r, t) in post.cache:
+                return True
+            pr = pre.recs.get(t)
+            return not c.get('no_commit') and (pr is None or pr['cur'] != r['cur'])
         if c['op'] == 'track':
             for t in c['targets']:
                 b = read_through(pre, t)
@@ -564,6 +580,50 @@ def io_fault_histories(seed, n):
         if kind.startswith('untrack'):
             h.append(dict(cmd))
         out.append((f'io-{kind}-{"efbig" if "fsize_limit" in fault else "tmp-blocked"}-{i}', cfg, h))
+    return out + cache_blocked_histories(seed, max(8, n // 2))
+
+
+def cache_blocked_histories(seed, n):
+    """Histories in which ONE track / carry-in cannot move a file into the cache: a non-directory sits in the way of the cache
+    address of the file's NEW digest (create_dir_all fails with ENOTDIR; the same code path as a cache directory the user cannot
+    write, a read-only or full cache file system).  All four algorithms, every method, serial and parallel, new files and new
+    versions of tracked files, alone or next to targets that can be carried.  Whatever the command's exit status: every byte
+    string that was in the workspace is still there or in the cache (o3, include_failed)."""
+    import random
+    rng = random.Random(f'cache-blocked-{seed}')
+    out = []
+    kinds = ['carryin', 'track-new', 'track-modified', 'carryin-many', 'track-many', 'carryin-twice']
+    for i in range(n):
+        kind = kinds[i % len(kinds)]
+        cfg = {'algo': (i + seed) % 4, 'method': rng.choice(['copy', 'copy', 'symlink', 'hardlink', 'reflink']), 'tob': rng.choice(['auto', 'binary', 'text'])}
+        e = rng.choice(['bin', 'txt', ''])
+        nm = lambda s: s + ('.' + e if e else '')
+        a, b, c2 = nm('a'), nm('d/b'), nm('c')
+        body = lambda t: bytes(f'{t} {i} {seed}\n', 'ascii') + bytes(rng.choice(b'abcdefgh\n') for _ in range(rng.choice([0, 30, 3000]))) + rng.choice([b'', b'\x00\x01'])
+        np_ = lambda: rng.random() < 0.5
+        h = [W(a, body('a v1')), W(b, body('b v1')), T([a, b], no_parallel=np_())]
+        if kind == 'carryin':
+            h += [W(a, body('a v2')), CI([a], no_parallel=np_(), cache_blocked=[a])]
+            after = [CI([a]), {'op': 'delete', 'path': a}, RC([a])]
+        elif kind == 'carryin-twice':
+            h += [W(a, body('a v2')), CI([a], no_parallel=np_(), cache_blocked=[a]), CI([a], no_parallel=np_(), cache_blocked=[a])]
+            after = [CI([a]), {'op': 'delete', 'path': a}, RC([a])]
+        elif kind == 'track-new':
+            h += [W(c2, body('c v1')), T([c2], no_parallel=np_(), method=rng.choice([None, 'symlink', 'hardlink']), cache_blocked=[c2])]
+            # the records of c2 were saved before the move failed: c2 is tracked, in the workspace, and not in the cache
+            after = [RC([c2], method=rng.choice(['copy', 'symlink', 'hardlink', 'reflink'])), T([c2]), RC([c2], method=rng.choice(['symlink', 'hardlink'])),
+                     CI([c2]), {'op': 'delete', 'path': c2}, RC([c2])]
+        elif kind == 'track-modified':
+            h += [W(b, body('b v2')), T([b], no_parallel=np_(), cache_blocked=[b])]
+            after = [RC([b], method=rng.choice(['copy', 'symlink', 'hardlink', 'reflink'])), T([b]), CI([b]), {'op': 'delete', 'path': b}, RC([b])]
+        elif kind == 'carryin-many':
+            h += [W(a, body('a v2')), W(b, body('b v2')), CI([a, b], no_parallel=np_(), cache_blocked=[rng.choice([a, b])])]
+            after = [CI([a, b]), {'op': 'delete', 'path': a}, {'op': 'delete', 'path': b}, RC([a, b])]
+        else:
+            h += [W(c2, body('c v1')), W(a, body('a v2')), T([a, c2, b], no_parallel=np_(), cache_blocked=[rng.choice([a, c2])])]
+            after = [T([a, c2]), CI([a, c2]), {'op': 'delete', 'path': a}, {'op': 'delete', 'path': c2}, RC([a, c2])]
+        # afterwards, without the fault: the same command goes through and what it committed can be restored
+        out.append((f'io-{kind}-cache-blocked-{i}', cfg, h + after))
     return out
 
 
@@ -587,7 +647,7 @@ def run_fault_stream(chk, r, oracles, n):
         if steps and steps[0]['cmd']['op'] == 'harness-error':
             chk.oracle_failure('harness error: ' + steps[0]['err'], {'history': [show_cmd(c) for c in h]}, None, signature={'kind': 'harness-error'}); continue
         for s in steps:
-            if s['cmd'].get('fsize_limit') or s['cmd'].get('tmp_blocked'):
+            if s['cmd'].get('fsize_limit') or s['cmd'].get('tmp_blocked') or s['cmd'].get('cache_blocked'):
                 st['faulty_commands_failed' if s['rc'] != 0 else 'faulty_commands_succeeded'] += 1
                 chk.count(f"io-fault:{name.rsplit('-', 1)[0]}:rc={s['rc']}")
         fails = []
@@ -600,6 +660,14 @@ def run_fault_stream(chk, r, oracles, n):
             k = json.dumps(sig, sort_keys=True)
             if k in seen: continue
             seen.add(k)
+            if not any(c.get('fsize_limit') or c.get('tmp_blocked') or c.get('no_table') for c in h):
+                # expressible as model lines (replayable with ./check Cnn --replay): cut after the command the oracle names
+                import re
+                m = re.match(r'step (\d+) ', msg)
+                hh = h[:int(m.group(1)) + 1] if m else h
+                chk.oracle_failure(msg, {'cfg': cfg, 'history': [rh.model_line(c) for c in hh], 'readable': [show_cmd(c) for c in hh], 'io_fault_history': name},
+                                   None, signature=dict(sig, stream='io-fault'))
+                continue
             chk.oracle_failure(msg, {'cfg': cfg, 'history': [show_cmd(c) + (f"   [ulimit -f {c['fsize_limit']}, SIGXFSZ ignored]" if c.get('fsize_limit') else '') +
                                                              (f"   [a regular file at .xvc/tmp: the copies of {c['tmp_blocked']} out of the cache fail]" if c.get('tmp_blocked') else '') for c in h],
                                      'io_fault_history': name}, None, signature=dict(sig, stream='io-fault'))
@@ -611,6 +679,12 @@ def parse_model_line(line):
     """inverse of repo_harness.model_line (histories are stored as model lines in replay files and in the corpus)"""
     t = line.split('\t')
     n = lambda x: None if x == '-' else x
+    if t[0] == 'blocked':
+        k = int(t[1])
+        c = parse_model_line('\t'.join(t[2 + k:]))
+        return dict(c, cache_blocked=t[2:2 + k]) if c else None
+    if t[0] == 'writess': return {'op': 'write', 'path': t[1], 'bytes': bytes.fromhex(t[2]), 'cname': 'same-size', 'same_second': True}
+    if t[0] == 'emptydir': return {'op': 'emptydir', 'path': t[1]}
     if t[0] == 'write': return {'op': 'write', 'path': t[1], 'bytes': bytes.fromhex(t[2]), 'cname': 'c'}
     if t[0] == 'delete': return {'op': 'delete', 'path': t[1]}
     if t[0] == 'track': return {'op': 'track', 'method': n(t[1]), 'tob': n(t[2]), 'no_commit': t[3] == '1', 'force': t[4] == '1', 'targets': t[5:]}
@@ -622,6 +696,12 @@ def parse_model_line(line):
             p, k = t[1][5:].rsplit(':', 1)
             c['only_version'] = [p, int(k)]
         return c
+    if t[0] == 'removepfx':
+        import onlyver
+        return onlyver.parse_model_line(t)
+    if t[0] in ('link', 'linkout', 'linkreplay'):
+        import c05
+        return c05.parse_link_line(t)
     if t[0] == 'untrack': return {'op': 'untrack', 'targets': t[1:]}
     if t[0] == 'untrackr':
         nb = int(t[1])
@@ -678,6 +758,34 @@ CORPUS = [
     ('versions', DEF, [W('a.txt', b'v1\n'), T(['a.txt']), W('a.txt', b'v2\n'), CI(['a.txt']), W('a.txt', b'v3\n'), T(['a.txt']), {'op': 'delete', 'path': 'a.txt'}, RC(['a.txt'], method='hardlink')]),
     ('share', {'algo': 2, 'method': 'hardlink', 'tob': 'auto'}, [W('a.txt', b'dup\n'), W('b.txt', b'dup\n'), T(['a.txt', 'b.txt']), {'op': 'remove', 'targets': ['a.txt']},
                                                                   {'op': 'untrack', 'targets': ['a.txt']}, RC(['b.txt'], method='copy')]),
+    # the same bytes committed under two EXTENSIONS share the digest directory, not the object (0.bin / 0.bak): in two commands
+    # and in one; and a digest directory that exists and is empty (left by a command that failed between mkdir and rename) is
+    # not an object
+    ('cross-extension-two-commands', DEF, [W('model.bin', b'\x00weights\n' * 9), T(['model.bin']), W('model.bak', b'\x00weights\n' * 9), T(['model.bak']),
+                                           {'op': 'delete', 'path': 'model.bin'}, {'op': 'delete', 'path': 'model.bak'}, RC(['model.bak']), RC(['model.bin'])]),
+    ('cross-extension-one-command', {'algo': 1, 'method': 'symlink', 'tob': 'auto'}, [W('d/data.csv', b'1,2\n3,4\n'), W('d/data.txt', b'1,2\n3,4\n'), W('d/data', b'1,2\n3,4\n'),
+                                    T(['d/data.csv', 'd/data.txt', 'd/data']), {'op': 'delete', 'path': 'd/data.txt'}, {'op': 'delete', 'path': 'd/data'},
+                                    {'op': 'delete', 'path': 'd/data.csv'}, RC(['d/data.csv', 'd/data.txt', 'd/data'], no_parallel=True)]),
+    ('empty-digest-directory', DEF, [W('ckpt.bin', b'\x00\x01checkpoint'), {'op': 'emptydir', 'path': 'ckpt.bin'}, T(['ckpt.bin']), {'op': 'delete', 'path': 'ckpt.bin'},
+                                     RC(['ckpt.bin'])]),
+    # an edit that keeps the size and lands in the same whole second as the recorded modification time (other nanoseconds) is
+    # an edit: carry-in (--force) commits it as a NEW version at the address of ITS bytes
+    ('same-second-edit-force', {'algo': 2, 'method': 'copy', 'tob': 'binary'}, [
+        W('data.bin', b'first  version of data.bin\n'), T(['data.bin']), dict(W('data.bin', b'SECOND version of data.bin\n'), same_second=True),
+        CI(['data.bin'], force=True), {'op': 'delete', 'path': 'data.bin'}, RC(['data.bin'])]),
+    ('same-second-edit', DEF, [W('a.txt', b'v1 aaaa\n'), T(['a.txt'], method='hardlink'), dict(W('a.txt', b'v2 bbbb\n'), same_second=True), CI(['a.txt']),
+                               dict(W('a.txt', b'v3 cccc\n'), same_second=True), T(['a.txt']), dict(W('a.txt', b'v4 dddd\n'), same_second=True),
+                               RC(['a.txt'], method='copy'), CI(['a.txt'], force=True)]),
+    # a tracked file that is in the workspace while its recorded version is NOT in the cache (--no-commit, remove --from-cache):
+    # recheck with another method / --force has nothing to restore it from and leaves the file alone
+    ('uncached-recheck-as', DEF, [W('notes.txt', b'only copy\n'), T(['notes.txt'], no_commit=True), RC(['notes.txt'], method='symlink'),
+                                  RC(['notes.txt'], method='hardlink'), RC(['notes.txt'], method='reflink', no_parallel=True), RC(['notes.txt'], force=True)]),
+    ('removed-recheck-force', {'algo': 3, 'method': 'copy', 'tob': 'auto'}, [W('g.bin', b'\x00only copy'), W('a.txt', b'other\n'), T(['g.bin', 'a.txt']),
+                              {'op': 'remove', 'targets': ['g.bin']}, RC(['g.bin'], method='symlink'), RC(['g.bin', 'a.txt'], method='hardlink'), RC(['g.bin'], force=True)]),
+    # the move into the cache fails (a non-directory in the way of the new digest's address): the command fails, the file stays
+    ('cache-blocked-carry-in', DEF, [W('a.txt', b'v1\n'), T(['a.txt']), W('a.txt', b'version two, not saved anywhere else\n'), CI(['a.txt'], cache_blocked=['a.txt'])]),
+    ('cache-blocked-track', {'algo': 2, 'method': 'symlink', 'tob': 'auto'}, [W('a.txt', b'v1\n'), W('g.bin', b'\x00new'), T(['a.txt']),
+                                                                             T(['g.bin', 'a.txt'], cache_blocked=['g.bin'], no_parallel=True)]),
 ]
 
 # replays of known findings (open): judged by the oracles alone, never part of the differential stream
@@ -687,6 +795,34 @@ KNOWN_REPLAYS = [
     # recomputed with the configured (auto) mode instead of the recorded (binary) one
     ('K17-same-method', DEF, [W('f.txt', b'hello\n'), T(['f.txt'], method='symlink'), W('f.txt', b'hello\n'), RC(['f.txt'], method='symlink')]),
 ]
+
+
+def shrink_history(r, cfg, h, oracles, restore, sig):
+    """greedy minimisation of a failing history: drop one command at a time (last to first) as long as an oracle still reports
+    a failure of the same kind; returns (history, message of the failure on it)"""
+    def failure_on(hh):
+        res = {}
+        try:
+            steps = r.run_history('shrink', cfg, hh, [restore_hook_factory(res, **restore)] if restore is not None else None)
+        except Exception:
+            return None
+        fl = []
+        for o in oracles:
+            fl += o(steps, cfg, hh)
+        fl += res.get('failures', [])
+        for m, s2 in fl:
+            if s2.get('kind') == sig.get('kind'):
+                return m
+        return None
+    cur, msg = [dict(c) for c in h], None
+    i = len(cur) - 1
+    while i >= 0 and len(cur) > 1:
+        cand = cur[:i] + cur[i + 1:]
+        m = failure_on(cand)
+        if m:
+            cur, msg = cand, m
+        i -= 1
+    return cur, msg
 
 
 def run_property(chk, pid, oracles, want=('main',), restore=None, nq=280, nt=3000, maxlen=12, extra_corpus=(), before_finish=None, fault_stream=0, extra_props=()):
@@ -798,7 +934,18 @@ def run_property(chk, pid, oracles, want=('main',), restore=None, nq=280, nt=300
             key = json.dumps(sig, sort_keys=True)
             if key in seen: continue
             seen.add(key)
-            chk.oracle_failure(msg, {'cfg': cfg, 'history': [rh.model_line(c) for c in h], 'readable': [show_cmd(c) for c in h]}, None, signature=sig)
+            # the failing input: the history up to the command the oracle names (what follows does not matter to the verdict)
+            import re
+            mm = re.match(r'(?:after )?step (\d+)\b', msg)
+            hh = h[:int(mm.group(1)) + 1] if mm else h
+            n_before = len(chk.oracle_failures)
+            chk.oracle_failure(msg, {'cfg': cfg, 'history': [rh.model_line(c) for c in hh], 'readable': [show_cmd(c) for c in hh]}, None, signature=sig)
+            if len(chk.oracle_failures) > n_before and n_before < 2:
+                # a new (not known) failure: minimise the first ones by dropping commands while the same kind of failure remains
+                small, msg2 = shrink_history(r, cfg, hh, oracles, restore, sig)
+                if msg2 and len(small) < len(hh):
+                    chk.oracle_failures[-1].update(what=msg2, case={'cfg': cfg, 'history': [rh.model_line(c) for c in small], 'readable': [show_cmd(c) for c in small],
+                                                                    'minimised_from': f'{name} ({len(hh)} commands)'})
         if len(chk.samples) < 5 and len(xs) >= 3 and st_tie['histories'] % 9 == 3:
             chk.samples.append({'cfg': cfg, 'history': [show_cmd(c) for c in h], 'final_abstraction_implementation': steps[-1]['abs'][:600],
                                 'final_abstraction_model': (m[len(steps) - 1] or '')[:600]})
